@@ -272,6 +272,21 @@ def run_shard(rec):
                     continue
                 judge(rec, T, {"kind": "str", "s": s, "placement": pname})
                 rec.count("hostile-strings")
+    # 2b. escape-interaction pairs: a character that needs an escape followed by one that could extend the escape
+    #     (octal / hex digits, x u U N, braces, quotes, backslash) - an escape spelled too short swallows its follower
+    firsts = [chr(c) for c in list(range(0, 0x21)) + [0x7f, 0x80, 0x85, 0x9f, 0xa0, 0xad, 0xff, 0x100, 0x2028, 0xd800, 0xdfff, 0xffff, 0x10000]] + ["\\", "'", '"', "{", "}"]
+    seconds = list("0123456789abcdefABCDEFxuUN{}'\"\\\n ") + ["\x00", "\xff"]
+    for a in firsts:
+        for b in seconds:
+            if not mine():
+                continue
+            for s in (a + b, a + b + b, "q" + a + b + "7"):
+                check_unescape(rec, s)
+                for pname, T in placements(s):
+                    if pname in ("bare", "fstring-literal", "bytes", "nested-in-field", "format-spec"):
+                        judge(rec, T, {"kind": "str", "s": s, "placement": pname},
+                              parse_produced=not any(0xD800 <= ord(c) <= 0xDFFF for c in s))
+                        rec.count("escape-follow-pairs")
     # 3. numbers
     for v in NUMBERS:
         if not mine():
@@ -298,7 +313,8 @@ def run_shard(rec):
             except Exception:
                 rec.sample({"fstring": name})
     # 5. random strings mixing everything
-    pool = ALPHABET + ["\r", "\t", "\x00", "\x7f", "\x80", "\xff", "é", " ", "\ud800", "\U0001F600", "{{", "}}", " "]
+    pool = ALPHABET + ["\r", "\t", "\x00", "\x7f", "\x80", "\xff", "é", " ", "\ud800", "\U0001F600", "{{", "}}", " ",
+                       "0", "7", "9", "x", "u", "N", "f", "1", "\x01", "\x1b"]
     nrand = (4000 if tier == "quick" else 60000) // (4 if other else 1)
     r2 = random.Random(rec.seed * 977 + rec.shard)
     for i in range(nrand // rec.nshards):
